@@ -1419,6 +1419,9 @@ class SyncObj(object):
                     selfData = data[0]
                     consumersData = []
 
+                if selfData.get('_SyncObj__enabledCodeVersion', 0) > self.__selfCodeVersion:
+                    raise SyncObjExceptionWrongVer(selfData['_SyncObj__enabledCodeVersion'])
+
                 for k, v in iteritems(selfData):
                     self.__dict__[k] = v
 
